@@ -73,8 +73,8 @@ let run (op_full : string) (a : string array) : string =
   | "to_str" -> show_res hex (to_str_w (unhex a.(0)))
   | "is_array" -> show_res show_bool (is_array_w (unhex a.(0)))
   | "is_object" -> show_res show_bool (is_object_w (unhex a.(0)))
-  | "exists_all_keys" -> show_res show_bool (exists_all_keys_m (unhex a.(0)) (hexlist a.(1)))
-  | "exists_any_keys" -> show_res show_bool (exists_any_keys_m (unhex a.(0)) (hexlist a.(1)))
+  | "exists_all_keys" -> show_res show_bool (exists_all_keys_w (unhex a.(0)) (hexlist a.(1)))
+  | "exists_any_keys" -> show_res show_bool (exists_any_keys_w (unhex a.(0)) (hexlist a.(1)))
   | "traverse_check_string" -> show_res show_bool (traverse_check_string_w (unhex a.(0)) (unhex a.(1)))
   | "contains" -> show_res show_bool (contains_m (unhex a.(0)) (unhex a.(1)))
   | "array_distinct" -> show_buf prefix (array_distinct_m (unhex a.(0)) prefix)
@@ -137,8 +137,8 @@ let run (op_full : string) (a : string array) : string =
   | "parse_key_paths" ->
       show_res (fun ks -> show_keypaths ks ^ " " ^ hex (show_key_paths ks)) (parse_key_paths (unhex a.(0)))
   | "print_key_paths" -> "ok " ^ hex (show_key_paths (parse_keypaths a.(0)))
-  | "to_serde_json" -> show_res show_sj (to_serde_json_m (unhex a.(0)))
-  | "to_serde_json_object" -> show_res (show_opt show_sj) (to_serde_json_object_m (unhex a.(0)))
+  | "to_serde_json" -> show_res show_sj (to_serde_json_w (unhex a.(0)))
+  | "to_serde_json_object" -> show_res (show_opt show_sj) (to_serde_json_object_w (unhex a.(0)))
   | "value_to_serde" -> show_res show_sj (value_to_serde (parse_val a.(0)))
   | "serde_to_value" -> "ok " ^ show_val (serde_to_value (parse_sj a.(0)))
   | "serde_roundtrip" ->
